@@ -55,7 +55,20 @@ impl fmt::Display for InnerErr {
         write!(f, "inner error #{} kind {}", self.id, self.kind)
     }
 }
-impl std::error::Error for InnerErr {}
+/// Errors of kind 1 ("another kind of error") carry a cause, as an application-level error
+/// wrapping a transport error does: the cause reads like an error of kind 0. Code that
+/// classifies an error must look at the error it was given, not at what caused it.
+static CAUSE_OF_KIND_1: InnerErr = InnerErr { id: 0, kind: 0 };
+
+impl std::error::Error for InnerErr {
+    fn source(&self) -> Option<&(dyn std::error::Error + 'static)> {
+        if self.kind == 1 {
+            Some(&CAUSE_OF_KIND_1)
+        } else {
+            None
+        }
+    }
+}
 
 /// Scripted outcome of an inner call.
 #[derive(Clone, Copy, Debug, PartialEq, Eq, Hash, PartialOrd, Ord)]
